@@ -296,3 +296,69 @@ Lemma alnum_not_dash c : is_alnum c = true -> Ascii.eqb c "-" = false.
 Proof. intros H. apply negb_true_iff. revert H. apply implb_true. revert c. by_ascii. Qed.
 Lemma alnum_not_hash c : is_alnum c = true -> Ascii.eqb c "#" = false.
 Proof. intros H. apply negb_true_iff. revert H. apply implb_true. revert c. by_ascii. Qed.
+
+(* ---------------------------------------------------------------- split on one character *)
+
+Lemma split_char_acc_spec sep s acc :
+  split_char_acc sep s acc =
+  match split_char_acc sep s "" with
+  | x :: r => (rev_str acc ++ x) :: r
+  | [] => []
+  end.
+Proof.
+  revert acc. induction s as [|c s IH]; intros acc; cbn [split_char_acc].
+  - change (rev_str "") with "". rewrite app_nil_r_s. reflexivity.
+  - destruct (Ascii.eqb c sep).
+    + change (rev_str "") with "". rewrite app_nil_r_s. reflexivity.
+    + rewrite IH. rewrite (IH (String c "")). destruct (split_char_acc sep s "") as [|x r]; [reflexivity|].
+      rewrite rev_str_cons, app_assoc_s. reflexivity.
+Qed.
+
+Lemma split_char_nosep sep s : all_chars (not_char sep) s = true -> split_char sep s = [s].
+Proof.
+  unfold split_char. induction s as [|c s IH]; intros H; [reflexivity|].
+  cbn [all_chars] in H. apply andb_true_iff in H as [Hc Hs]. unfold not_char in Hc. apply negb_true_iff in Hc.
+  cbn [split_char_acc]. rewrite Hc, split_char_acc_spec, (IH Hs). reflexivity.
+Qed.
+
+Lemma split_char_app sep a b :
+  all_chars (not_char sep) a = true -> split_char sep (a ++ String sep b) = a :: split_char sep b.
+Proof.
+  unfold split_char. induction a as [|c a IH]; intros H.
+  - cbn [append split_char_acc]. rewrite Ascii.eqb_refl. reflexivity.
+  - cbn [all_chars] in H. apply andb_true_iff in H as [Hc Ha]. unfold not_char in Hc. apply negb_true_iff in Hc.
+    cbn [append split_char_acc]. rewrite Hc, split_char_acc_spec, (IH Ha). reflexivity.
+Qed.
+
+
+Lemma split_char_acc_nonempty sep s acc : split_char_acc sep s acc <> [].
+Proof.
+  revert acc. induction s as [|c s IH]; intros acc; cbn [split_char_acc]; [discriminate|].
+  destruct (Ascii.eqb c sep); [discriminate|apply IH].
+Qed.
+
+Lemma split_char_nonempty sep s : split_char sep s <> [].
+Proof. apply split_char_acc_nonempty. Qed.
+
+Lemma split_char_app_gen sep a b :
+  split_char sep (a ++ String sep b) = (split_char sep a ++ split_char sep b)%list.
+Proof.
+  unfold split_char. induction a as [|c a IH]; cbn [append split_char_acc].
+  - rewrite Ascii.eqb_refl. reflexivity.
+  - destruct (Ascii.eqb c sep).
+    + rewrite IH. reflexivity.
+    + rewrite split_char_acc_spec, IH. rewrite (split_char_acc_spec sep a (String c "")).
+      pose proof (split_char_nonempty sep a) as Hne. unfold split_char in Hne.
+      destruct (split_char_acc sep a "") as [|x r]; [congruence|]. reflexivity.
+Qed.
+
+Lemma rev_two {A} (l1 l2 : list A) : l1 <> [] -> l2 <> [] -> exists a b t, rev (l1 ++ l2) = a :: b :: t.
+Proof.
+  intros H1 H2. rewrite rev_app_distr.
+  destruct (rev l2) as [|a r2] eqn:E2.
+  - apply (f_equal (@rev A)) in E2. rewrite rev_involutive in E2. cbn in E2. congruence.
+  - destruct r2 as [|b r2]; [|cbn; eauto].
+    destruct (rev l1) as [|b r1] eqn:E1.
+    + apply (f_equal (@rev A)) in E1. rewrite rev_involutive in E1. cbn in E1. congruence.
+    + cbn. eauto.
+Qed.
